@@ -1,9 +1,359 @@
-//! C20 / C42 modes (filled in below).
-use hv_common::{Args, Recorder};
+//! C20 (rewrites + meta-graph serialisation) and C42 (deterministic code generation) modes.
 
-pub fn run_c20_case(rec: &mut Recorder, n: u64, tag: &str, _plines: &[String]) {
-    rec.case(n, tag);
+use std::collections::BTreeMap;
+
+use dfir_lang::diagnostic::Diagnostics;
+use dfir_lang::graph::{DfirGraph, GraphEdgeId, GraphNode, GraphNodeId, HandoffKind, eliminate_extra_unions_tees, partition_graph};
+use hv_common::{Args, Recorder, Rng};
+use quote::quote;
+use slotmap::Key;
+
+use crate::dump::*;
+use crate::pgen;
+
+fn ffi<K: Key>(k: K) -> u64 {
+    k.data().as_ffi()
 }
+
+/// exact view of the DiMulGraph inside a `DfirGraph` through public accessors
+struct GView {
+    nodes: Vec<(u64, String, String, GraphNodeId)>, // idx, kind, name
+    edges: Vec<(u64, u64, u64, String, String)>,    // ffi key, src idx, dst idx, ports
+    adj: Vec<(u64, Vec<u64>, Vec<u64>)>,            // node idx, succ edge keys, pred edge keys
+}
+
+fn gview(g: &DfirGraph) -> GView {
+    let mut v = GView { nodes: vec![], edges: vec![], adj: vec![] };
+    for (nid, node) in g.nodes() {
+        let kind = match node {
+            GraphNode::Operator(_) => "op",
+            GraphNode::Handoff { .. } => "hoff",
+            GraphNode::ModuleBoundary { .. } => "mod",
+        };
+        v.nodes.push((idx(nid), kind.to_string(), node.to_name_string().to_string(), nid));
+        v.adj.push((idx(nid), g.node_successor_edges(nid).map(ffi).collect(), g.node_predecessor_edges(nid).map(ffi).collect()));
+    }
+    for (eid, (s, d)) in g.edges() {
+        let (sp, dp) = g.edge_ports(eid);
+        v.edges.push((ffi(eid), idx(s), idx(d), port_str(sp), port_str(dp)));
+    }
+    v
+}
+
+impl GView {
+    fn nodes_line(&self) -> String {
+        join_nums(&self.nodes.iter().map(|n| n.0).collect::<Vec<_>>())
+    }
+    fn edges_line(&self) -> String {
+        if self.edges.is_empty() { "-".into() } else { self.edges.iter().map(|e| format!("{}:{}>{}", e.0, e.1, e.2)).collect::<Vec<_>>().join(" ") }
+    }
+    fn adj_line(&self) -> String {
+        let f = |v: &Vec<u64>| v.iter().map(|x| x.to_string()).collect::<Vec<_>>().join(",");
+        if self.adj.is_empty() { "-".into() } else { self.adj.iter().map(|a| format!("{}:s={};p={}", a.0, f(&a.1), f(&a.2))).collect::<Vec<_>>().join(" ") }
+    }
+    fn wires(&self) -> Vec<(u64, String, u64, String)> {
+        let mut w: Vec<_> = self.edges.iter().map(|e| (e.1, e.3.clone(), e.2, e.4.clone())).collect();
+        w.sort();
+        w
+    }
+    fn wires_line(&self) -> String {
+        let w = self.wires();
+        if w.is_empty() { "-".into() } else { w.iter().map(|w| format!("{}:{}>{}:{}", w.0, w.1, w.2, w.3)).collect::<Vec<_>>().join(" ") }
+    }
+    /// `DiMulGraph::assert_valid`, re-stated over the public accessors
+    fn valid(&self) -> bool {
+        let succ: BTreeMap<u64, &Vec<u64>> = self.adj.iter().map(|a| (a.0, &a.1)).collect();
+        let pred: BTreeMap<u64, &Vec<u64>> = self.adj.iter().map(|a| (a.0, &a.2)).collect();
+        for e in &self.edges {
+            if !succ.get(&e.1).is_some_and(|v| v.contains(&e.0)) || !pred.get(&e.2).is_some_and(|v| v.contains(&e.0)) {
+                return false;
+            }
+        }
+        for a in &self.adj {
+            let mut s = a.1.clone();
+            s.sort();
+            s.dedup();
+            if s.len() != a.1.len() {
+                return false;
+            }
+        }
+        let ns: usize = self.adj.iter().map(|a| a.1.len()).sum();
+        let np: usize = self.adj.iter().map(|a| a.2.len()).sum();
+        ns == self.edges.len() && np == self.edges.len()
+    }
+}
+
+/// independent expectation: contract every single-input single-output union/tee out of the wiring
+fn contract_unary(v: &GView) -> (Vec<(u64, String, u64, String)>, Vec<u64>) {
+    let mut w: Vec<(u64, String, u64, String)> = v.edges.iter().map(|e| (e.1, e.3.clone(), e.2, e.4.clone())).collect();
+    let mut removed = Vec::new();
+    for n in &v.nodes {
+        if n.1 != "op" || (n.2 != "union" && n.2 != "tee") {
+            continue;
+        }
+        let ins: Vec<usize> = (0..w.len()).filter(|&i| w[i].2 == n.0).collect();
+        let outs: Vec<usize> = (0..w.len()).filter(|&i| w[i].0 == n.0).collect();
+        let a = v.adj.iter().find(|a| a.0 == n.0).unwrap();
+        if a.1.len() != 1 || a.2.len() != 1 {
+            continue;
+        }
+        if ins.len() != 1 || outs.len() != 1 || ins[0] == outs[0] {
+            continue;
+        }
+        let new = (w[ins[0]].0, w[ins[0]].1.clone(), w[outs[0]].2, w[outs[0]].3.clone());
+        let (i, o) = (ins[0].max(outs[0]), ins[0].min(outs[0]));
+        w.remove(i);
+        w.remove(o);
+        w.push(new);
+        removed.push(n.0);
+    }
+    w.sort();
+    (w, removed)
+}
+
+fn node_texts(g: &DfirGraph) -> BTreeMap<u64, String> {
+    g.nodes().map(|(n, node)| (ffi(n), node.to_pretty_string().to_string())).collect()
+}
+
+/// every public accessor of a partitioned graph, as one canonical string
+fn full_view(g: &DfirGraph) -> Vec<String> {
+    let mut out = Vec::new();
+    for (n, node) in g.nodes() {
+        let kind = match node {
+            GraphNode::Operator(_) => "op".to_string(),
+            GraphNode::Handoff { kind, .. } => format!("hoff:{kind:?}"),
+            GraphNode::ModuleBoundary { input, .. } => format!("mod:{input}"),
+        };
+        let oi = g.node_op_inst(n).map(|oi| {
+            format!(
+                "{}|in={:?}|out={:?}|args={}|gen={}",
+                oi.op_constraints.name,
+                oi.input_ports.iter().map(port_str).collect::<Vec<_>>(),
+                oi.output_ports.iter().map(port_str).collect::<Vec<_>>(),
+                oi.arguments_raw.to_string().replace(' ', ""),
+                oi.generics.generic_args.as_ref().map(|g| quote!(#g).to_string()).unwrap_or_default(),
+            )
+        });
+        out.push(format!(
+            "node {} {} text={:?} sg={:?} loop={:?} var={:?} delay={:?} deg={}/{} opinst={:?} refs={:?}",
+            ffi(n),
+            kind,
+            node.to_pretty_string(),
+            g.node_subgraph(n).map(ffi),
+            g.node_loop(n).map(ffi),
+            g.node_varname(n).map(|v| v.0.to_string()),
+            g.handoff_delay_type(n),
+            g.node_degree_in(n),
+            g.node_degree_out(n),
+            oi,
+            g.node_handoff_references(n).iter().map(|r| (r.node_id.map(ffi), r.is_mut, r.access_group)).collect::<Vec<_>>(),
+        ));
+        // adjacency-list *order* is rebuilt in edge-id order by `From<EdgeList>`; it is not part of the dataflow
+        // (codegen sorts by (port, edge id)), so compare the lists as sets
+        let mut ss = g.node_successor_edges(n).map(ffi).collect::<Vec<_>>();
+        let mut ps = g.node_predecessor_edges(n).map(ffi).collect::<Vec<_>>();
+        ss.sort();
+        ps.sort();
+        out.push(format!("adj {} s={:?} p={:?}", ffi(n), ss, ps));
+    }
+    for (e, (s, d)) in g.edges() {
+        let (sp, dp) = g.edge_ports(e);
+        out.push(format!("edge {} {}>{} {} {}", ffi(e), ffi(s), ffi(d), port_str(sp), port_str(dp)));
+    }
+    for (sg, nodes) in g.subgraphs() {
+        out.push(format!("sg {} {:?} loop={:?}", ffi(sg), nodes.iter().map(|&n| ffi(n)).collect::<Vec<_>>(), g.subgraph_loop(sg).map(ffi)));
+    }
+    out.push(format!("toposort {:?}", g.subgraph_toposort().iter().map(|&s| ffi(s)).collect::<Vec<_>>()));
+    for (l, nodes) in g.loops() {
+        out.push(format!(
+            "loop {} parent={:?} nodes={:?} children={:?}",
+            ffi(l),
+            g.loop_parent(l).map(ffi),
+            nodes.iter().map(|&n| ffi(n)).collect::<Vec<_>>(),
+            g.loop_children(l).iter().map(|&c| ffi(c)).collect::<Vec<_>>()
+        ));
+    }
+    out.push(format!("root_loops {:?}", g.root_loops().iter().map(|&l| ffi(l)).collect::<Vec<_>>()));
+    // `SparseSecondaryMap` is hash-backed: sort before printing
+    let mut cols = g.node_color_map().iter().map(|(n, c)| (ffi(n), *c)).collect::<Vec<_>>();
+    cols.sort();
+    out.push(format!("colors {:?}", cols));
+    out.push(format!("mermaid {:?}", g.to_mermaid(&Default::default())));
+    out.push(format!("dot {:?}", g.to_dot(&Default::default())));
+    out.push(format!("surface {:?}", g.surface_syntax_string()));
+    out
+}
+
+/// replace `loc_nopath_<l>_<c>_<l>_<c>` by `loc`
+pub fn strip_locs(s: &str) -> String {
+    let mut out = String::with_capacity(s.len());
+    let mut rest = s;
+    while let Some(i) = rest.find("loc_nopath_") {
+        out.push_str(&rest[..i]);
+        out.push_str("loc");
+        let tail = &rest[i + "loc_nopath_".len()..];
+        let n = tail.bytes().take_while(|b| b.is_ascii_digit() || *b == b'_').count();
+        // keep a trailing `__` separator if the digits ran into the next identifier part
+        let taken = &tail[..n];
+        let keep = if taken.ends_with("__") { 2 } else { 0 };
+        rest = &tail[n - keep..];
+    }
+    out.push_str(rest);
+    out
+}
+
+pub fn code_of(g: &DfirGraph) -> Result<String, String> {
+    let mut d = Diagnostics::new();
+    match g.as_code(&quote!(dfir_rs), true, quote!(), &mut d) {
+        Ok(t) => Ok(t.to_string()),
+        Err(d) => Err(d.iter().map(|x| x.message.clone()).collect::<Vec<_>>().join("; ")),
+    }
+}
+
+fn dump_graph_lines(rec: &mut Recorder, v: &GView) {
+    rec.line("rnodes", &v.nodes_line());
+    rec.line("redges", &v.edges_line());
+    rec.line("radj", &v.adj_line());
+    rec.line("rwires", &v.wires_line());
+    rec.line("rvalid", if v.valid() { "true" } else { "false" });
+}
+
+pub fn run_c20_case(rec: &mut Recorder, n: u64, tag: &str, plines: &[String]) {
+    rec.case(n, tag);
+    for l in plines {
+        rec.line(l, "ok");
+    }
+    let src = pgen::program_text(plines);
+    let mut g = match build_flat(&src) {
+        Built::Ok(g) => g,
+        Built::ParseErr(_) => {
+            rec.count("parse-err");
+            return;
+        }
+        Built::BuildErr(_) => {
+            rec.count("build-err");
+            return;
+        }
+    };
+    // ---- 1. eliminate_extra_unions_tees on the flat graph
+    let v0 = gview(&g);
+    for nd in &v0.nodes {
+        rec.line(&format!("rnode {} {} {}", nd.0, nd.1, nd.2), "ok");
+    }
+    for e in &v0.edges {
+        rec.line(&format!("redge {} {} {} {} {}", e.0, e.1, e.2, e.3, e.4), "ok");
+    }
+    let texts0 = node_texts(&g);
+    let loops0: Vec<_> = flat_of(&g).loops.iter().map(|l| (l.id, l.parent, l.nodes.clone())).collect();
+    let refs0: Vec<_> = flat_of(&g).refs.iter().map(|r| (r.node, r.target, r.is_mut, r.group)).collect();
+    let (expect_wires, expect_removed) = contract_unary(&v0);
+    let r = hv_common::catch(std::panic::AssertUnwindSafe(|| eliminate_extra_unions_tees(&mut g)));
+    if r.is_err() {
+        rec.line("eliminate", "panic");
+        rec.count("eliminate-panic");
+        // the only panic known is the unary self-loop `u = union(); u -> u;`
+        let selfloop = v0.edges.iter().any(|e| e.1 == e.2);
+        rec.check(selfloop, "c20-eliminate-panic", "eliminate_extra_unions_tees panicked on a graph without a self-loop");
+        return;
+    }
+    rec.line("eliminate", "ok");
+    let v1 = gview(&g);
+    dump_graph_lines(rec, &v1);
+    if !expect_removed.is_empty() {
+        rec.count("unary-union-tee-removed");
+        rec.nontrivial();
+    }
+    rec.check(v1.wires() == expect_wires, "c20-eliminate-wiring", &format!("expected {:?} got {:?}", expect_wires, v1.wires()));
+    let kept: Vec<u64> = v0.nodes.iter().map(|n| n.0).filter(|n| !expect_removed.contains(n)).collect();
+    rec.check(v1.nodes.iter().map(|n| n.0).collect::<Vec<_>>() == kept, "c20-eliminate-nodes", &format!("expected {:?} got {}", kept, v1.nodes_line()));
+    let texts1 = node_texts(&g);
+    rec.check(texts1.iter().all(|(k, t)| texts0.get(k) == Some(t)), "c20-eliminate-operator-text", "an operator's text/arguments changed");
+    let f1 = flat_of(&g);
+    rec.check(f1.loops.iter().map(|l| (l.id, l.parent, l.nodes.clone())).collect::<Vec<_>>() == loops0, "c20-eliminate-loops", "");
+    rec.check(f1.refs.iter().map(|r| (r.node, r.target, r.is_mut, r.group)).collect::<Vec<_>>() == refs0, "c20-eliminate-refs", "");
+    rec.check(v1.valid(), "c20-eliminate-invalid-graph", "DiMulGraph invariant broken");
+    // ---- 2. insert_intermediate_node (the handoff insertion primitive) on up to two edges
+    let mut rng = Rng::new(hv_common::fnv(src.as_bytes())).fork(n);
+    let mut cur = v1;
+    for _ in 0..2 {
+        if cur.edges.is_empty() {
+            break;
+        }
+        let pick = cur.edges[rng.below(cur.edges.len() as u64) as usize].clone();
+        let eid: GraphEdgeId = slotmap::KeyData::from_ffi(pick.0).into();
+        let before = cur.wires();
+        let hoff = GraphNode::Handoff { kind: HandoffKind::Vec, src_span: proc_macro2::Span::call_site(), dst_span: proc_macro2::Span::call_site() };
+        let r = hv_common::catch(std::panic::AssertUnwindSafe(|| g.insert_intermediate_node(eid, hoff)));
+        match r {
+            Err(_) => {
+                rec.line(&format!("hinsert {} 0", pick.0), "panic");
+                rec.check(false, "c20-insert-intermediate-panic", "");
+                return;
+            }
+            Ok((nid, e1)) => {
+                let e0 = g.node_predecessor_edges(nid).next().map(ffi).unwrap_or(0);
+                rec.line(&format!("hinsert {} {}", pick.0, idx(nid)), &format!("{} {}", e0, ffi(e1)));
+                rec.count("intermediate-node-inserted");
+                let v2 = gview(&g);
+                dump_graph_lines(rec, &v2);
+                // contracting the new node gives back the old wiring
+                let mut w: Vec<_> = v2.edges.iter().filter(|e| e.1 != idx(nid) && e.2 != idx(nid)).map(|e| (e.1, e.3.clone(), e.2, e.4.clone())).collect();
+                let i = v2.edges.iter().find(|e| e.2 == idx(nid));
+                let o = v2.edges.iter().find(|e| e.1 == idx(nid));
+                if let (Some(i), Some(o)) = (i, o) {
+                    w.push((i.1, i.3.clone(), o.2, o.4.clone()));
+                    rec.check(i.4 == "_" && o.3 == "_", "c20-insert-intermediate-ports", "ports at the new node are not elided");
+                }
+                w.sort();
+                rec.check(w == before, "c20-insert-intermediate-wiring", &format!("before {:?} after-contraction {:?}", before, w));
+                rec.check(v2.valid(), "c20-insert-invalid-graph", "");
+                cur = v2;
+            }
+        }
+    }
+    // ---- 3. partition + JSON round trip as the runtime does (serde -> insert_node_op_insts_all)
+    let Built::Ok(g2) = build_flat(&src) else { return };
+    let Ok(g2) = hv_common::catch(std::panic::AssertUnwindSafe(|| prepare(g2))) else { return };
+    let Ok(g2) = g2 else { return };
+    let Ok(Ok(p)) = hv_common::catch(std::panic::AssertUnwindSafe(|| partition_graph(g2))) else {
+        rec.count("not-partitioned");
+        return;
+    };
+    rec.count("partitioned");
+    let json = serde_json::to_string(&p).unwrap();
+    let back: Result<DfirGraph, _> = serde_json::from_str(&json);
+    match back {
+        Err(e) => rec.check(false, "c20-json-deserialize", &e.to_string()),
+        Ok(mut q) => {
+            let mut d = Diagnostics::new();
+            q.insert_node_op_insts_all(&mut d);
+            rec.check(!d.has_error(), "c20-json-opinst-diagnostics", &format!("{:?}", d.iter().map(|x| x.message.clone()).collect::<Vec<_>>()));
+            let (a, b) = (full_view(&p), full_view(&q));
+            let first = a.iter().zip(b.iter()).find(|(x, y)| x != y);
+            rec.check(a == b, "c20-json-roundtrip-accessors", &format!("{:?}", first));
+            let json2 = serde_json::to_string(&q).unwrap();
+            rec.check(json == json2, "c20-json-roundtrip-json", "");
+            // the loaded graph generates the same code as the original
+            match (code_of(&p), code_of(&q)) {
+                // token spacing is not significant: serde re-prints a no-argument closure `||` as `| |`
+                (Ok(c1), Ok(c2)) => {
+                    // source locations baked into helper fn names come from spans, which serde does not keep
+                    let (a, b) = (strip_locs(&c1.replace(' ', "")), strip_locs(&c2.replace(' ', "")));
+                    let pos = a.bytes().zip(b.bytes()).position(|(x, y)| x != y).unwrap_or(a.len().min(b.len()));
+                    let lo = pos.saturating_sub(60);
+                    rec.check(a == b, "c20-json-roundtrip-code", &format!("at {pos}: `{}` vs `{}`", &a[lo..(pos + 60).min(a.len())], &b[lo..(pos + 60).min(b.len())]));
+                }
+                (Err(_), Err(_)) => rec.count("code-error-both"),
+                (x, y) => rec.check(false, "c20-json-roundtrip-code-result", &format!("{:?} vs {:?}", x.is_ok(), y.is_ok())),
+            }
+            rec.count("json-roundtrip");
+            if p.nodes().any(|(_, nd)| matches!(nd, GraphNode::Handoff { .. })) {
+                rec.nontrivial();
+            }
+        }
+    }
+}
+
 pub fn run_c42_case(rec: &mut Recorder, n: u64, tag: &str, _plines: &[String], _a: &Args) {
     rec.case(n, tag);
 }
